@@ -6,8 +6,9 @@
    internal events (collection of an expired record, reservation of a CAS value).
    The clock is constant in the concurrent window. CAS values of unconditional
    stores are treated as fresh names drawn at the reservation, not at the store. *)
-From MC Require Import Model.Base Model.Generated Model.Store Model.Memc Model.Conc Spec.Atomic
-  Proofs.StoreLemmas Proofs.SetLemmas Proofs.PC03.
+From Coq Require Import ZArith.
+From MC Require Import Model.Base Model.Generated Model.Store Model.Memc Model.Conc Model.PolConc Spec.Atomic
+  Proofs.StoreLemmas Proofs.SetLemmas Proofs.PC03 Proofs.PC03p.
 
 (* any number of clients, any operation lists on any keys, any initial store,
    any schedule: a valid one-at-a-time trace reproduces the final shared state
@@ -20,6 +21,25 @@ Theorem C03_linearizable : forall now (opss : list (list op)) (sched : list nat)
                       (th_cur t = None -> pending = []).
 Proof. exact linearizable. Qed.
 Print Assumptions C03_linearizable.
+
+(* the same behind the random eviction policy (Model/PolConc.v: every Cache
+   operation of RandomPolicy as a program over its map calls and its usage-counter
+   accesses; clients choose their next operation from the answers they have had;
+   what the scans of the map accept is an arbitrary oracle): a valid one-at-a-time
+   trace — operations atomic; expired records collected, CAS values reserved and
+   records evicted as internal events — reproduces the final map and CAS counter
+   and gives every client its answers in its own order. Evictions (and the
+   record-by-record removals of an immediate flush) can remove any record at any
+   time; nothing else distinguishes the policy store from the plain one. *)
+Theorem C03_linearizable_policy :
+  forall now limit (clients : list (list pores -> option pop)) (sched : list nat) (s0 : pshared),
+  let '(ts, s) := prun_sched now limit sched (map (fun c => new_gthread c) clients) s0 in
+  exists evs, qvalid now evs (proj s0) /\ qreplay now evs (proj s0) = proj s /\
+    forall i t, gnth i ts = Some t ->
+      exists pending, qlins i evs = filter not_fuel (g_done t) ++ pending /\ (length pending <= 1)%nat /\
+                      (g_cur t = None -> pending = []).
+Proof. exact linearizable_policy. Qed.
+Print Assumptions C03_linearizable_policy.
 
 (* the programs are the sequential store functions cut at their atomic calls *)
 Theorem C03_get_prog_is_get : forall now k s,
